@@ -126,6 +126,15 @@ Definition cls_P (a : str) : bool :=
 Definition safe (a : str) : bool :=
   negb (cls_NL a) && negb (cls_Q a) && negb (cls_H a) && negb (cls_D a) && negb (cls_B a) && negb (cls_P a).
 
+(* a purely syntactic sufficient condition for [safe] (EvalSerFacts.safe_simple_safe): no CR/LF; no
+   leading quote and no quote together with a space; no # unless there is a space; no "${" / "%{";
+   no back-slash directly before $ or %; no % together with a space *)
+Definition pair_D (x y : char) : bool := ((x =? c_dollar) || (x =? c_pct)) && (y =? c_lbrace).
+Definition pair_B (x y : char) : bool := (x =? c_bs) && ((y =? c_dollar) || (y =? c_pct)).
+Definition safe_simple (a : str) : bool :=
+  negb (cls_NL a) && negb (cls_Q a) && negb (cls_H a) && negb (has_pair pair_D a) &&
+  negb (has_pair pair_B a) && negb (has_chr c_pct a && has_chr c_sp a).
+
 (* E: the first argument begins with = and contains no space (the command word is read as an
    output variable) *)
 Definition cls_E (a : str) : bool := starts_with c_eq a && negb (has_chr c_sp a).
